@@ -108,7 +108,6 @@ func (s *State) ExpandMacros(program ast.Node) ast.Node {
 		evalEnv.MaxDepth = s.MaxDepth
 		evalEnv.Out = s.Out
 		evalEnv.LogOut = s.LogOut
-		evalEnv.Extensions = s.Extensions
 
 		evaluated := evalEnv.Eval(macro.Body)
 
@@ -136,7 +135,8 @@ func extendMacroEnv(macro *object.Macro, args []object.Quote) *State {
 	extended := object.NewEnclosedEnvironment(macro.Env)
 
 	for paramIdx, param := range macro.Parameters {
-		extended.Set(param.Value().Literal(), args[paramIdx])
+		// Define (not Set): a parameter named like something of the macro environment must not overwrite it.
+		extended.SetNoChecks(param.Value().Literal(), args[paramIdx], true)
 	}
 
 	return &State{env: extended}
